@@ -90,6 +90,12 @@ def add_code(s: Stream, code, label, errors, dtype, tag):
         # compared on the implementation side against the single-error path, whose rows the model checks above
         s.add('b2i 1', '1' if eff == single else f'stack-mismatch {eff[:80]} vs {single[:80]}',
               {'code': label, 'what': 'get_effective_error on a stack vs row by row'}, nontrivial=False, tag='stacked')
+        # ... and against the model: the 2-D path of get_effective_error / code.logical_errors row by row
+        s.add(f'effstack {dt} $LX $LZ {stack([list(e) for e in errors[:50]])}', eff,
+              {'code': label, 'what': 'get_effective_error on a stack vs the model'}, tag='stacked-model')
+        eff2 = guarded(lambda: stack([[int(x) for x in r] for r in np.asarray(code.logical_errors(E)).reshape(len(E), -1)]))
+        s.add(f'effstack {dt} $LX $LZ {stack([list(e) for e in errors[:50]])}', eff2,
+              {'code': label, 'what': 'code.logical_errors on a stack vs the model'}, tag='stacked-model')
 
 
 def structured_errors(code, rng, n_rand):
